@@ -171,6 +171,32 @@ func (s *lbState) checkLedger() bool {
 		s.fail("C03", "node-returned-once", "node-double-put", "a buffer node was put into the node pool while already in it (%d times)", s.poolDup)
 		return false
 	}
+	// a block is returned only after the data in it has been consumed and released by every reader
+	// sharing it: no unread byte of a live reader may lie in a block that is back in the pool
+	all := append([]*lbReader{s.root}, s.kids...)
+	for _, r := range all {
+		b := r.buf
+		if b == nil || b.read == nil || r.dead {
+			continue
+		}
+		steps := 0
+		for n := b.read; n != nil && steps < 100000; n, steps = n.next, steps+1 {
+			if n.Len() > 0 && n.off < len(n.buf) {
+				if blk := mcache.Lookup(&n.buf[n.off]); blk != nil && blk.Free {
+					fs := simrt.SiteString(blk.FSite)
+					fn := fs
+					if i := strings.LastIndex(fs, " "); i >= 0 {
+						fn = fs[i+1:]
+					}
+					s.fail("C03", "returned-after-consumed", "premature-free/"+fn, "%d unread bytes of %s lie in pool block #%d (cap %d), which was returned to the pool at %s", n.Len(), r.name, blk.Serial, blk.Cap, fs)
+					return false
+				}
+			}
+			if n == b.flush {
+				break
+			}
+		}
+	}
 	return true
 }
 
@@ -528,6 +554,24 @@ func (s *lbState) step(e *Env, k string) bool {
 			donor.Flush()
 			dRead, dPend = dPend, nil
 			desc += "F"
+			// its producer may also have read part of it (and not released what it read): only the
+			// unread rest is handed over
+			if len(dRead) > 1 && e.Bool() {
+				k := 1 + e.Intn(len(dRead)-1)
+				switch e.Intn(3) {
+				case 0:
+					donor.Skip(k)
+					desc += fmt.Sprintf(" Skip%d", k)
+				case 1:
+					donor.Next(k)
+					desc += fmt.Sprintf(" Next%d", k)
+				case 2:
+					donor.Peek(k)
+					donor.readCopy(make([]byte, k))
+					desc += fmt.Sprintf(" Peek+Read%d", k)
+				}
+				dRead = dRead[k:]
+			}
 		}
 		s.logOp("Append[%s]", strings.TrimSpace(desc))
 		if err := b.Append(donor); err != nil {
